@@ -169,6 +169,9 @@ def shrink(build, foamj, text, name, q, kind, budget):
         del lines[hit]
     return "\n".join(lines)
 
+# signatures that root_cause() recognises from the observed behaviour alone
+ROOT_SIGS = ("java|Globals.setGlobal-null", "java|javac-not-a-statement", "java|stdout-not-flushed")
+
 def root_cause(kind, i, j):
     """differences whose cause is recognisable from what the Java route prints get the cause as their
     signature (one recorded finding per cause, whatever program shows it)"""
@@ -316,31 +319,40 @@ def run_part(ctx, build):
                                          "interpreter at -Q1; rebuild the jars (lib/aldor, lib/libfoam: make)" % ", ".join(bad)) if bad else "current"
     # programs that are expected to differ
     wit = load_dir(os.path.join(VERIF, "corpus", "java", "witness"))
-    jobs = [(both, (build, foamj, text, pname, int(header(text, "Q") or 1)), {}) for pname, text in wit]
-    for (pname, text), r in zip(wit, aldor.run_many(jobs, workers=16)):
-        q = int(header(text, "Q") or 1)
+    def levels(text):
+        if header(text, "Qs"): return [int(x) for x in header(text, "Qs").split()]
+        return [int(header(text, "Q") or 1)]
+    wkeys = [(pname, text, q) for pname, text in wit for q in levels(text)]
+    jobs = [(both, (build, foamj, text, pname, q), {}) for pname, text, q in wkeys]
+    for (pname, text, q), r in zip(wkeys, aldor.run_many(jobs, workers=16)):
         what = header(text, "witness") or "?"
+        wname = "%s@Q%d" % (pname, q)
         if isinstance(r, Exception):
-            stats["witness"][pname] = "error %r" % (r,); continue
+            stats["witness"][wname] = "error %r" % (r,); continue
         i, j = r
         kind = classify(i, j)
         desc = "%s: interp rc=%s %r / java stage=%s rc=%s %r" % (kind or "agree", i["rc"], strip_interp_noise(i["stdout"])[-120:], j["stage"], j["rc"],
                                                                  (j["stdout"] or j["log"] or j["stderr"])[-160:])
-        stats["witness"][pname] = desc
+        stats["witness"][wname] = desc
         stats["runs"] += 1
         if what == "width":
             if kind is None:
-                ctx.notes.append("javasearch: width witness %s no longer differs (%s)" % (pname, desc))
+                ctx.notes.append("javasearch: width witness %s no longer differs (%s)" % (wname, desc))
         elif what.startswith("unsupported"):
-            stats["unsupported"][pname] = "%s -> %s" % (what, desc)
+            stats["unsupported"][wname] = "%s -> %s" % (what, desc)
         elif kind is not None and kind != "invalid":
+            rc_sig = root_cause(kind, i, j)
+            if what in ROOT_SIGS and rc_sig != what:
+                # the difference is NOT (only) the recorded one: e.g. more than the unterminated tail is missing
+                report(ctx, build, foamj, pname, text, q, kind, i, j, 0)
+                continue
             ctx.finding(what, "witness program %s at -Q%d shows the recorded defect on the real routes: %s" % (pname, q, desc),
                         {"kind": kind, "program": pname, "Q": q, "source": text,
                          "commands": j["commands"] + ["aldor <base> -Q%d -Ginterp %s.as" % (q, pname)],
                          "outputs": {"interp_rc": i["rc"], "interp_stdout": i["stdout"][-2000:], "java_stage": j["stage"], "java_rc": j["rc"],
                                      "java_stdout": j["stdout"][-2000:], "java_stderr": j["stderr"][-2000:], "java_log": j["log"][-2000:]}})
         else:
-            ctx.notes.append("javasearch: witness %s for %s no longer differs (%s)" % (pname, what, desc))
+            ctx.notes.append("javasearch: witness %s for %s no longer differs (%s)" % (wname, what, desc))
     ctx.cov["evaluations"] += stats["runs"]
     ctx.cov["distinct_nontrivial"] += stats["programs"]
     return stats
